@@ -74,6 +74,10 @@ Dedup(fold, q, seen) ==
     ELSE <<q[1]>> \o Dedup(fold, Tail(q), seen \cup {Key(fold, q[1].n)})
 RECURSIVE Concat(_)
 Concat(qq) == IF qq = <<>> THEN <<>> ELSE qq[1] \o Concat(Tail(qq))
+\* walk_folder_repeat: the same without de-duplication
+ComposeRepeat(fold, pfxs, lists) ==
+    Concat([i \in 1..Len(lists) |->
+              [k \in 1..Len(lists[i]) |-> [n |-> RelPath(fold, lists[i][k].n, pfxs[i]), c |-> lists[i][k].c]]])
 Compose(fold, pfxs, lists) ==
     Dedup(fold, Concat([i \in 1..Len(lists) |->
                          [k \in 1..Len(lists[i]) |-> [n |-> RelPath(fold, lists[i][k].n, pfxs[i]), c |-> lists[i][k].c]]]), {})
